@@ -55,8 +55,8 @@ def gen_case(tape, tier):
     full = [1 + tape.choose(3, "size") for _ in range(rank)]
     while True:
         mask = [bool(tape.coin(0.65, "external")) for _ in range(rank)]
-        if any(mask):
-            break
+        if any(mask) or tape.coin(0.5, "all-internal"):
+            break  # (all axes internal: one element, external shape (), e.g. the output of "x[:] -> y[j]")
     ext = [s for s, m in zip(full, mask) if m]
     nops = 2 + tape.choose(11, "nops")
     ops = []
@@ -109,7 +109,7 @@ def gen_case(tape, tier):
                     k = {"bare": k[0]}  # a bare index on an array of rank >= 2: one index too few
             ops.append({"op": "bad_get", "key": k})
         elif o == "bad_dump":
-            bad = tape.pick(["range", "rank"], "bad")
+            bad = tape.pick(["range", "rank"], "bad") if ext else "rank"
             k = key(ext)
             if bad == "range":
                 ax = tape.choose(len(ext), "axis")
@@ -201,7 +201,7 @@ class Model:
     def dump(self, ext_key, value):
         sel = np.zeros(self.ext, dtype=bool)
         sel[ext_key] = True
-        for e in zip(*np.nonzero(sel)):
+        for e in ([()] if not self.ext else zip(*np.nonzero(sel))):
             e = tuple(int(x) for x in e)
             fk = self.full_key(e)
             if self.internal:
@@ -408,7 +408,7 @@ def _run_case(case, exec_seed=None, exec_tape=None):
                         sel = np.zeros(m.ext, dtype=bool)
                         sel[k] = True
                         info["elements"] = []
-                        for e in zip(*np.nonzero(sel)):
+                        for e in ([()] if not m.ext else zip(*np.nonzero(sel))):
                             e = tuple(int(x) for x in e)
                             st = m.copy_state()
                             old_missing, old_c = bool(m.ext_missing()[e]), canon(m.sub(e))
